@@ -95,7 +95,13 @@ InitOb(p) ==
     ch   |-> [c \in Q.chans |-> [q |-> <<>>, sview |-> BotFor(p), rx |-> TRUE]],
     arc  |-> [a \in Q.arcs  |-> [cnt |-> Cardinality({h \in Q.h0 : Q.hmap[h] = a}),
                                  view |-> BotFor(p), drops |-> 0]],
-    trk  |-> [k \in Q.trks  |-> "none"] ]
+    trk  |-> [k \in Q.trks  |-> "none"],
+    \* thread-locals: per thread and key the number of accesses so far (-1: not initialised in this thread)
+    tl   |-> [t \in 1..Len(Q.threads) |-> [k \in Q.tls |-> -1]],
+    tli  |-> [k \in Q.tls |-> 0],                       \* initialisations of key k (over all threads)
+    \* lazy statics: published instance (-1: none), instances constructed so far, instances dropped early
+    lz   |-> [z \in Q.lzs |-> [id |-> -1, ninit |-> 0, lost |-> 0, view |-> BotFor(p)]],
+    lzmine |-> [t \in 1..Len(Q.threads) |-> -1] ]
 
 \* the initial state of program p as a record (used by Init and by the trace spec's reset)
 I0(p) ==
@@ -534,6 +540,53 @@ TNew(t, ins, me)    == ob' = [ob EXCEPT !.trk[ins.o] = "live"]    /\ Plain(t, me
 TDrop(t, ins, me)   == ob' = [ob EXCEPT !.trk[ins.o] = "dropped"] /\ Plain(t, me) /\ NoRet /\ UNCHANGED st
 TForget(t, ins, me) == ob' = [ob EXCEPT !.trk[ins.o] = "leaked"]  /\ Plain(t, me) /\ NoRet /\ UNCHANGED st
 
+(* -------------------------------------------------------------- statics *)
+\* LocalKey::with: initialised lazily once per thread, private to the thread; returns the number of
+\* earlier accesses by this thread
+TlWith(t, ins, me) ==
+  LET k == ins.o  c == ob.tl[t][k] IN
+  /\ ob' = [ob EXCEPT !.tl[t][k] = IF c = -1 THEN 1 ELSE c + 1,
+                      !.tli[k] = IF c = -1 THEN @ + 1 ELSE @]
+  /\ Plain(t, me) /\ Ret(t, IF c = -1 THEN 0 ELSE c) /\ UNCHANGED st
+\* nested with: key o, inside it key o2; returns the inner key's earlier accesses
+TlNest(t, ins, me) ==
+  LET k == ins.o  k2 == ins.o2  c == ob.tl[t][k]  c2 == ob.tl[t][k2] IN
+  /\ ob' = [ob EXCEPT !.tl[t] = [@ EXCEPT ![k] = IF c = -1 THEN 1 ELSE c + 1, ![k2] = IF c2 = -1 THEN 1 ELSE c2 + 1],
+                      !.tli = [@ EXCEPT ![k] = IF c = -1 THEN @ + 1 ELSE @, ![k2] = IF c2 = -1 THEN @ + 1 ELSE @]]
+  /\ Plain(t, me) /\ Ret(t, IF c2 = -1 THEN 0 ELSE c2) /\ UNCHANGED st
+
+\* the cell an initialiser of lazy static z writes (if the program declares it)
+LzCell(z) == "c_" \o z
+LzInitWrite(t, z, me) == IF LzCell(z) \in P.cells THEN CellWrite(t, LzCell(z), me) ELSE NoRace /\ UNCHANGED cells
+LzBase(t, me) == /\ SetMe(t, me) /\ UnchMem /\ UNCHANGED <<scv, st, ash>>
+\* Lazy::get, initialiser without a scheduling point (ins.k = ""): one step
+LzGetSimple(t, ins, me) ==
+  LET z == ins.o  r == ob.lz[z] IN
+  IF r.id # -1
+  THEN /\ LzBase(t, AcqV(me, r.view)) /\ Adv(t) /\ Ret(t, r.id) /\ NoRace /\ UNCHANGED <<cells, ob, sub>>
+  ELSE /\ LzInitWrite(t, z, me)
+       /\ ob' = [ob EXCEPT !.lz[z] = [id |-> r.ninit, ninit |-> r.ninit + 1, lost |-> r.lost, view |-> me.cur]]
+       /\ LzBase(t, me) /\ Adv(t) /\ Ret(t, r.ninit) /\ UNCHANGED sub
+\* initialiser that yields (ins.k = "yield"): construct, (other threads may run), then publish or discard
+LzGetRacy(t, ins, me) ==
+  LET z == ins.o  r == ob.lz[z] IN
+  IF sub[t] = ""
+  THEN IF r.id # -1
+       THEN /\ LzBase(t, AcqV(me, r.view)) /\ Adv(t) /\ Ret(t, r.id) /\ NoRace /\ UNCHANGED <<cells, ob, sub>>
+       ELSE /\ LzInitWrite(t, z, me)
+            /\ ob' = [ob EXCEPT !.lz[z].ninit = @ + 1, !.lzmine[t] = r.ninit]
+            /\ sub' = [sub EXCEPT ![t] = "lzinit"]
+            /\ LzBase(t, me) /\ NoRet /\ UNCHANGED pc
+  ELSE /\ sub[t] = "lzinit"
+       /\ sub' = [sub EXCEPT ![t] = ""]
+       /\ IF r.id # -1
+          THEN /\ ob' = [ob EXCEPT !.lz[z].lost = @ + 1, !.lzmine[t] = -1]       \* lost the race: own instance dropped
+               /\ LzBase(t, AcqV(me, r.view)) /\ Ret(t, r.id)
+          ELSE /\ ob' = [ob EXCEPT !.lz[z].id = ob.lzmine[t], !.lz[z].view = me.cur, !.lzmine[t] = -1]
+               /\ LzBase(t, me) /\ Ret(t, ob.lzmine[t])
+       /\ Adv(t) /\ NoRace /\ UNCHANGED cells
+LzGet(t, ins, me) == IF ins.k = "yield" THEN LzGetRacy(t, ins, me) ELSE LzGetSimple(t, ins, me)
+
 (* -------------------------------------------------------------- control *)
 \* br: if regs[r] = v fall through, else skip the next w instructions
 Br(t, ins, me) ==
@@ -591,6 +644,9 @@ Do(t, ins, me) ==
     [] ins.op = "tnew"     -> TNew(t, ins, me)
     [] ins.op = "tdrop"    -> TDrop(t, ins, me)
     [] ins.op = "tforget"  -> TForget(t, ins, me)
+    [] ins.op = "tlwith"   -> TlWith(t, ins, me)
+    [] ins.op = "tlnest"   -> TlNest(t, ins, me)
+    [] ins.op = "lzget"    -> LzGet(t, ins, me)
     [] ins.op = "br"       -> Br(t, ins, me)
     [] ins.op = "panic"    -> Panic(t, ins, me)
     [] ins.op \in {"nop", "stopx", "explore", "skipb"} -> Nop(t, ins, me)
@@ -631,7 +687,11 @@ EndKinds    == IF end # "run" THEN {end}
                ELSE IF AllDone THEN (IF LeakKinds = {} THEN {"ok"} ELSE LeakKinds)
                ELSE {"deadlock"}
 \* what is compared with the implementation
+\* init / drop counters the harness observes at the end of an iteration (every initialised thread-local
+\* is dropped with its thread, every constructed lazy instance is dropped by the end of the iteration)
+Stat == [tl |-> [k \in P.tls |-> ob.tli[k]], lz |-> [z \in P.lzs |-> ob.lz[z].ninit]]
 Outcome(k)  == [p |-> pid, end |-> k,
+                stat |-> IF k \in {"race", "deadlock", "panic"} THEN <<>> ELSE Stat,
                 regs |-> IF k \in {"race", "deadlock", "panic"} THEN <<>> ELSE regs,
                 drops |-> IF k \in {"race", "deadlock", "panic"} THEN <<>> ELSE [a \in P.arcs |-> ob.arc[a].drops]]
 
